@@ -203,15 +203,17 @@ fn gen_skesk(rng: &mut ChaCha8Rng, i: u64) -> Gen {
             expect.insert("sym", sym.to_string());
         }
         5 => {
+            // LibrePGP v5: cipher, mode (2 = OCB), S2K, 15-octet IV, encrypted key (key size) + 16-octet tag
+            let sym = if i % 10 < 8 { SYMS[(i / 5 % 11) as usize] } else { sym };
+            let mode = if i % 10 < 9 { 2 } else { aead };
             body.push(sym);
-            body.push(aead);
+            body.push(mode);
             body.extend(&s2k);
-            let ivl = rfc::sym::aead_nonce_len(aead).unwrap_or(0);
-            body.extend(rnd_bytes(rng, ivl));
-            let n = rng.gen_range(16..60);
+            body.extend(rnd_bytes(rng, 15));
+            let n = rfc::sym::key_size(sym).unwrap_or(16) + 16;
             body.extend(rnd_bytes(rng, n));
             expect.insert("sym", sym.to_string());
-            if ivl == 0 {
+            if mode != 2 || rfc::sym::key_size(sym).is_none() {
                 canonical = false;
             }
         }
@@ -775,7 +777,11 @@ fn packet_checks(ctx: &mut Ctx, p: &Packet, wire: Option<(&[u8], bool, &[u8])>, 
                 ctx.violation(format!("C05/reparse-differs/{label}"), "parse(serialize(P)) != P for a canonically encoded packet", json!({"base": replay, "out": hexs(&out)}));
             }
             if out != w {
-                ctx.violation(format!("C05/canonical-bytes-changed/{label}"), "canonically encoded packet is re-serialised to different bytes", json!({"base": replay, "out": hexs(&out)}));
+                if x448_clamp_only(w, &out, body) {
+                    ctx.violation("C05/canonical-bytes-changed/x448-secret-clamped", "an unprotected X448 secret key whose 56 octets are not in clamped form is written back clamped (different bytes, same key)", json!({"base": replay, "out": hexs(&out)}));
+                } else {
+                    ctx.violation(format!("C05/canonical-bytes-changed/{label}"), "canonically encoded packet is re-serialised to different bytes", json!({"base": replay, "out": hexs(&out)}));
+                }
             }
         } else {
             // value round trip on the normalised form
@@ -801,6 +807,30 @@ fn packet_checks(ctx: &mut Ctx, p: &Packet, wire: Option<(&[u8], bool, &[u8])>, 
             ctx.violation(format!("C05/reparse-differs/{label}"), "parse(serialize(P)) differs from P", replay.clone());
         }
     }
+}
+
+/// true if `out` equals `w` except that the unprotected X448 secret scalar was clamped
+/// (RFC 7748: clear the two low bits of the first octet, set the high bit of the last) and, for
+/// v4, the checksum re-computed.
+fn x448_clamp_only(w: &[u8], out: &[u8], body: &[u8]) -> bool {
+    let Some(rs) = RefSecret::parse(body) else { return false };
+    if rs.public.alg != 26 || rs.protection != RefProtection::None || w.len() != out.len() {
+        return false;
+    }
+    let hdr = w.len() - body.len();
+    let data_off = hdr + body.len() - rs.data.len();
+    let mut exp = w.to_vec();
+    if rs.data.len() < 56 {
+        return false;
+    }
+    exp[data_off] &= 0xFC;
+    exp[data_off + 55] |= 0x80;
+    if rs.public.version != 6 && rs.data.len() == 58 {
+        let c = rfc::sum16(&exp[data_off..data_off + 56]).to_be_bytes();
+        exp[data_off + 56] = c[0];
+        exp[data_off + 57] = c[1];
+    }
+    exp == out
 }
 
 fn body_of(p: &Packet, out: &mut Vec<u8>) -> pgp::errors::Result<()> {
